@@ -318,7 +318,21 @@ func mutateRule(r *rand.Rand, rule *Rule) (*Rule, string, []probeTarget) {
 
 // craftedPair: rules whose argument lists imitate snapshot syntax (D5 family).
 func craftedPair(r *rand.Rand) (*Rule, *Rule, string) {
-	if r.Intn(3) == 0 {
+	if k := r.Intn(4); k == 3 {
+		// two long string constants of equal length that differ only near the end / in the middle
+		n := []int{70, 100, 130, 300}[r.Intn(4)]
+		base := strings.Repeat("abcdefghij", n/10)
+		pos := []int{n - 1, n - 2, n / 2, 65, 97}[r.Intn(5)]
+		if pos >= n {
+			pos = n - 1
+		}
+		other := base[:pos] + "Z" + base[pos+1:]
+		mkl := func(name, lit string) *Rule {
+			return &Rule{Name: name, Desc: "crafted", When: Bin("!=", TBool, VarE(P("F.S1"), TStr, reflect.String), LitS(lit)),
+				Then: []*Stmt{Assign(P("F.S2"), "=", LitS(lit)), {Kind: "retract", Name: name}}}
+		}
+		return mkl("A", base), mkl("B", other), "long string constants differing in one character"
+	} else if k == 0 {
 		// two rules that differ only in WHICH member of the same method result they read
 		k := int64(r.Intn(5))
 		arg := []string{"F.A", "F.B", "F.Idx"}[r.Intn(3)]
